@@ -316,12 +316,13 @@ class SimpleCorrelator(AbstractCorrelator):
         self._store: PersistingDict[Tuple[float, SmppMessage]] = PersistingDict(
             directory, name + '_store.json'
         )  # seq_num: (stored_at, message)
-        self._segment_store: PersistingDict[Tuple[int, int]] = PersistingDict(
+        self._segment_store: PersistingDict[Tuple[str, int]] = PersistingDict(
             directory, name + '_segment_store.json'
-        )  # seq_num: (ref_num, segment_seq_num)
+        )  # seq_num: (status_key, segment_seq_num)
         self._segment_status_store: PersistingDict[SegmentStatus] = PersistingDict(
             directory, name + '_segment_status_store.json'
-        )  # ref_num: segment_status
+        )  # status_key: segment_status
+        self._status_keys: Dict[str, str] = {}  # ref_num: status_key of the message being sent
         self._delivery_store: PersistingDict[Tuple[float, SubmitSm]] = PersistingDict(
             directory, name + '_delivery_store.json'
         )  # msg_id: (stored_at, submit_sm)
@@ -368,20 +369,24 @@ class SimpleCorrelator(AbstractCorrelator):
         if isinstance(smpp_message, SubmitSm):
             ref_num, seq_num, total_segments = smpp_message.get_segmentation_data()
             if total_segments > 0:
-                # This is a part of a segmented message
-                self._segment_store[seq_key] = (ref_num, seq_num)
-                key: str = str(ref_num)
+                # This is a part of a segmented message. Its status is stored under the reference
+                # number combined with the sequence number of its first segment: the 8-bit
+                # reference number alone is re-used after 256 messages, possibly while an older
+                # message with the same reference is still unanswered or waiting for receipts
+                key: str = self._status_keys.get(str(ref_num), '') if seq_num > 1 else ''
                 segment_status: SegmentStatus
-                if seq_num > 1 and key in self._segment_status_store:
-                    segment_status = self._segment_status_store[str(ref_num)]
+                if key and key in self._segment_status_store:
+                    segment_status = self._segment_status_store[key]
                 else:
-                    # First segment of a message: the 8-bit reference number may be re-used
-                    # while an entry of an older, finished message is still waiting for receipts
+                    # First segment of a message
+                    key = f'{ref_num}/{smpp_message.sequence_num}'
+                    self._status_keys[str(ref_num)] = key
                     # All segments count as being sent until each one is answered or expires,
                     # also those that were not sent yet
                     segment_status = SegmentStatus(
                         {str(num): STATUS_SENDING for num in range(1, total_segments + 1)}, smpp_message
                     )
+                self._segment_store[seq_key] = (key, seq_num)
                 segment_status.status[str(seq_num)] = STATUS_SENDING
                 self._segment_status_store[key] = segment_status  # persist the update
         await self._remove_expired()
